@@ -787,3 +787,98 @@ func specTrimNul(s string) string { return s[:specTrimNulLen(s, len(s))] }
 //@   let v = d.Options[93]
 //@   ensures[wellformed] v != nil && len(v) > 0 && len(v)%2 == 0 ==> len(result) == len(v)/2 && (forall k int :: {result[k]} 0 <= k && k < len(result) ==> int(result[k]) == int(string(v)[2*k])*256 + int(string(v)[2*k+1]))
 //@   ensures[default] v == nil || len(v) == 0 || len(v)%2 != 0 ==> result == nil
+
+// ---------- C01 / C07: an RFC 2131/2132/3396 reader recovers the options from the canonical options area ----------
+// Pure lemmas over the specification functions (no code involved): walking the reader (specOptsOK / specOptHas /
+// specOptVal) over the instances that the writer specification (specEncChunks / specEncOne / specEncFrom) produces.
+
+func verifAssert(b bool) {}
+
+// specInFrom: option k is written by specEncFrom(m, c0)
+func specInFrom(m map[uint8]string, c0 int, k uint8) bool {
+	if k == 82 {
+		return specHas(m, 82)
+	}
+	return k != 0 && k != 255 && int(k) >= c0 && specHas(m, k)
+}
+
+// lemmaChunks: the reader steps over the instances of one long value and concatenates them (RFC 3396).
+// k, acc, hacc: the option being read and what has been read of it so far (arbitrary)
+//@ contract lemmaChunks
+//@   requires 0 < c && c < 255 && len(v) > 0 && a == x + specEncChunks(c, v) + r
+//@   decreases len(v)
+//@   ensures[ok] specOptsOK(a, len(x), chk) == specOptsOK(a, len(x)+len(specEncChunks(c, v)), chk)
+//@   ensures[val] specOptVal(a, len(x), k, acc) == specOptVal(a, len(x)+len(specEncChunks(c, v)), k, acc+ite(int(k) == c, v, ""))
+//@   ensures[has] specOptHas(a, len(x), k, hacc) == specOptHas(a, len(x)+len(specEncChunks(c, v)), k, hacc || int(k) == c)
+func lemmaChunks(a string, x string, c int, v string, r string, chk bool, k uint8, acc string, hacc bool) {
+	p := len(x)
+	if len(v) <= 255 {
+		// one instance: code, length, value
+		verifAssert(p+2+len(v) <= len(a) && len(specEncChunks(c, v)) == 2+len(v))
+		verifAssert(int(a[p]) == c && int(a[p+1]) == len(v))
+		verifAssert(a[p+2:p+2+len(v)] == v)
+		return
+	}
+	// a full instance of 255 bytes, then the rest
+	verifAssert(p+257 <= len(a) && len(specEncChunks(c, v)) == 257+len(specEncChunks(c, v[255:])))
+	verifAssert(int(a[p]) == c && int(a[p+1]) == 255)
+	verifAssert(a[p+2:p+257] == v[:255])
+	if int(k) == c {
+		lemmaChunks(a, x+specByte(c)+specByte(255)+v[:255], c, v[255:], r, chk, k, acc+v[:255], true)
+	} else {
+		lemmaChunks(a, x+specByte(c)+specByte(255)+v[:255], c, v[255:], r, chk, k, acc, hacc)
+	}
+}
+
+// lemmaOne: the same for one option as specEncOne writes it (a zero-length value is one instance of length 0)
+//@ contract lemmaOne
+//@   requires 0 < c && c < 255 && a == x + specEncOne(c, v) + r
+//@   ensures[ok] specOptsOK(a, len(x), chk) == specOptsOK(a, len(x)+len(specEncOne(c, v)), chk)
+//@   ensures[val] specOptVal(a, len(x), k, acc) == specOptVal(a, len(x)+len(specEncOne(c, v)), k, acc+ite(int(k) == c, v, ""))
+//@   ensures[has] specOptHas(a, len(x), k, hacc) == specOptHas(a, len(x)+len(specEncOne(c, v)), k, hacc || int(k) == c)
+func lemmaOne(a string, x string, c int, v string, r string, chk bool, k uint8, acc string, hacc bool) {
+	if len(v) > 0 {
+		lemmaChunks(a, x, c, v, r, chk, k, acc, hacc)
+		return
+	}
+	verifAssert(len(x)+2 <= len(a) && int(a[len(x)]) == c && int(a[len(x)+1]) == 0)
+}
+
+// lemmaCodes: the reader steps over everything specEncFrom(m, c0) writes and collects exactly the options written
+//@ contract lemmaCodes
+//@   requires 0 <= c0 && c0 <= 255 && a == x + specEncFrom(m, c0) + r
+//@   decreases 256 - c0
+//@   ensures[ok] specOptsOK(a, len(x), chk) == specOptsOK(a, len(x)+len(specEncFrom(m, c0)), chk)
+//@   ensures[val] specOptVal(a, len(x), k, acc) == specOptVal(a, len(x)+len(specEncFrom(m, c0)), k, acc+ite(specInFrom(m, c0, k), m[k], ""))
+//@   ensures[has] specOptHas(a, len(x), k, hacc) == specOptHas(a, len(x)+len(specEncFrom(m, c0)), k, hacc || specInFrom(m, c0, k))
+func lemmaCodes(a string, x string, m map[uint8]string, c0 int, r string, chk bool, k uint8, acc string, hacc bool) {
+	if c0 > 254 {
+		if specHas(m, 82) {
+			lemmaOne(a, x, 82, m[82], r, chk, k, acc, hacc)
+		}
+		return
+	}
+	if c0 != 82 && c0 != 0 && specHas(m, uint8(c0)) {
+		v := m[uint8(c0)]
+		lemmaOne(a, x, c0, v, specEncFrom(m, c0+1)+r, chk, k, acc, hacc)
+		if int(k) == c0 {
+			lemmaCodes(a, x+specEncOne(c0, v), m, c0+1, r, chk, k, acc+v, true)
+		} else {
+			lemmaCodes(a, x+specEncOne(c0, v), m, c0+1, r, chk, k, acc, hacc)
+		}
+		return
+	}
+	lemmaCodes(a, x, m, c0+1, r, chk, k, acc, hacc)
+}
+
+// lemmaV4Area: the options area of an encoded packet (canonical options, End, zero padding) is well formed and holds
+// exactly the options of the map (codes 0 and 255 excepted: they are not options); k: the option looked at (arbitrary)
+//@ contract lemmaV4Area
+//@   requires pad >= 0
+//@   let A = specEncFrom(m, 0) + specByte(255) + specZeros(pad)
+//@   ensures[ok] specOptsOK(A, 0, true)
+//@   ensures[has] specOptHas(A, 0, k, false) == specInFrom(m, 0, k)
+//@   ensures[val] specOptVal(A, 0, k, "") == ite(specInFrom(m, 0, k), m[k], "")
+func lemmaV4Area(m map[uint8]string, pad int, k uint8) {
+	lemmaCodes(specEncFrom(m, 0)+specByte(255)+specZeros(pad), "", m, 0, specByte(255)+specZeros(pad), true, k, "", false)
+}
